@@ -434,8 +434,10 @@ def main(argv=None):
         "wall_s": round(wall, 2),
         "violations": nviol,
     }
-    os.makedirs(EVIDENCE_DIR, exist_ok=True)
-    path = os.path.join(EVIDENCE_DIR, f"{pid}.json")
+    # a filtered (debugging) run never replaces the evidence of the full check
+    evdir = os.path.join(VERIF, "scratch", "evidence") if args.only else EVIDENCE_DIR
+    os.makedirs(evdir, exist_ok=True)
+    path = os.path.join(evdir, f"{pid}.json")
     with open(path, "w") as f:
         json.dump(ev, f, indent=1, sort_keys=False)
     ok, msg = validate_evidence(path)
